@@ -566,6 +566,9 @@ def classify_import_error(e: BaseException, schema=None) -> str:
         return "base_order_mro"
     if isinstance(e, TypeError) and "non-default argument" in s:
         return "dataclass_default_order"
+    if isinstance(e, TypeError) and "unsupported operand type(s) for |" in s:
+        # `Uu | None` where the alias Uu is bound to something that is not a type (e.g. a plain string)
+        return "alias_not_a_type_under_union_operator"
     if isinstance(e, NameError):
         single = {t.types[0].name for t in (schema.type_map.values() if schema else ()) if graphql.is_union_type(t) and len(t.types) == 1}
         if getattr(e, "name", None) in single:
@@ -579,9 +582,10 @@ def import_failure(e: BaseException, schema, sdl: str) -> tuple[str, dict]:
     mech = classify_import_error(e, schema)
     extra: dict = {}
     if mech == "single_member_union_before_member":
-        # the trigger of the recorded finding: the member class is kept back by the first pass of
-        # sort_data_models (an interface it implements is not placed when it is visited) while the alias
-        # is placed by it; a single-member alias that fails over an EARLY member is something else
+        # the trigger of the REPAIRED finding C17-single-member-union (a regression of it is a VIOLATION):
+        # the member class is kept back by the first pass of sort_data_models (an interface it implements
+        # is not placed when it is visited) while the alias is placed by it; a single-member alias that
+        # fails over an EARLY member is something else
         extra["member_kept_back"] = getattr(e, "name", None) in c17_order.first_pass_late(c17_order.schema_defs(sdl))
     return mech, extra
 
@@ -700,24 +704,29 @@ def _check_module(ck, camp, fail, schema, mod, code, kind, flags, scalar_map, se
         if graphql.is_union_type(t):
             al = getattr(mod, n, None)
             want = {m.name for m in t.types}
-            if len(want) == 1:
-                have = {getattr(al, "__name__", repr(al))} if isinstance(al, type) else {repr(al)}
-                ok = al is getattr(mod, next(iter(want)))
+            # one member: the alias is the member itself — `Union['Alpha']` is ForwardRef('Alpha') (typing
+            # collapses a one-member Union); a class or a plain string are read the same way
+            if typing.get_origin(al) in (typing.Union, types.UnionType):
+                args = typing.get_args(al)
+            elif len(want) == 1 and (isinstance(al, (type, typing.ForwardRef, str))):
+                args = (al,)
             else:
-                args = typing.get_args(al) if typing.get_origin(al) in (typing.Union, types.UnionType) else ()
-                have = {a.__forward_arg__ if isinstance(a, typing.ForwardRef) else getattr(a, "__name__", repr(a)) for a in args}
-                # the alias denotes exactly the union of the member CLASSES of this module: a forward
-                # reference is what its text evaluates to in the module's namespace
-                denoted = []
-                for a in args:
-                    if isinstance(a, (typing.ForwardRef, str)):
-                        try:
-                            a = eval(a.__forward_arg__ if isinstance(a, typing.ForwardRef) else a, vars(mod))  # noqa: S307 - a name written by the generator
-                        except Exception:  # noqa: BLE001
-                            a = None
-                    denoted.append(a)
-                ok = have == want and len(args) == len(want) and all(isinstance(d, type) for d in denoted) \
-                    and set(denoted) == {getattr(mod, m) for m in want}
+                args = ()
+            have = {a.__forward_arg__ if isinstance(a, typing.ForwardRef) else a if isinstance(a, str) else getattr(a, "__name__", repr(a)) for a in args}
+            # the alias denotes exactly the union of the member CLASSES of this module: a forward
+            # reference is what its text evaluates to in the module's namespace
+            denoted = []
+            for a in args:
+                if isinstance(a, (typing.ForwardRef, str)):
+                    try:
+                        a = eval(a.__forward_arg__ if isinstance(a, typing.ForwardRef) else a, vars(mod))  # noqa: S307 - a name written by the generator
+                    except Exception:  # noqa: BLE001
+                        a = None
+                denoted.append(a)
+            ok = have == want and len(args) == len(want) and all(isinstance(d, type) for d in denoted) \
+                and set(denoted) == {getattr(mod, m) for m in want}
+            if not args:
+                have = {repr(al)}
             if not ok:
                 return fail("union_alias", f"union {n}: alias over {sorted(have)}, members are {sorted(want)}")
 
@@ -845,7 +854,13 @@ def campaign_e2e(ck: Check, n_docs: int, variants: int) -> None:
     camp.wall_s = time.time() - t0
 
 
+SINGLE_LATE_WITNESS = "union Uu = Alpha\ntype Alpha implements Aged & Base { f_e: [Uu] }\ninterface Base { f_e: [Uu] }\ninterface Aged implements Base { f_e: [Uu] }\nschema { query: Alpha }\n"
+SINGLE_LATE = ("union Uu = Alpha\ntype Alpha implements Aged & Base { f_e: [Uu] f_o: Uu }\ninterface Base { f_e: [Uu] }\n"
+               "interface Aged implements Base { f_e: [Uu] }\ntype Hh { f_r: Uu! f_l: [Uu!]! f_h: Uu }\nschema { query: Hh }\n")
+SINGLE_EARLY = "union Uu = Alpha\ntype Alpha { f_e: [Uu] f_o: Uu }\ntype Hh { f_r: Uu! f_l: [Uu!] f_h: Uu }\nschema { query: Hh }\n"
+
 CORPUS = [
+    (SINGLE_LATE_WITNESS, "pydantic_v2.BaseModel", {}, {}),  # the witness of C17-single-member-union as it was recorded
     # overrides of predefined scalars
     ("type A { f_a: ID! f_b: [Float] f_c: Int f_d: String! f_e: Boolean }\nschema { query: A }\n", "pydantic_v2.BaseModel", {}, {"ID": "int", "Float": "str"}),
     ("input A { f_a: ID! f_b: [Float!]! f_c: Int f_d: String! f_e: Boolean }\ntype Q { f_q: Int }\nschema { query: Q }\n", "pydantic.BaseModel", {}, {"Int": "str", "String": "int", "Boolean": "float"}),
@@ -855,6 +870,15 @@ CORPUS = [
     ("type A { f_a: [[Int!]]! f_b: [[Int]!] f_e: [A!] }\nschema { query: A }\n", "typing.TypedDict", {"force_optional_for_required_fields": True}, {}),
     ("scalar Date\ntype A { f_a: Date! f_b: [Date] }\nschema { query: A }\n", "pydantic_v2.BaseModel", {}, {"Date": "int"}),
     ("interface N { f_i: ID! }\ntype A implements N { f_i: ID! f_u: [U!] }\ntype B { f_s: String }\nunion U = A | B\nunion W = B\nenum Color { V_RED V_GREEN }\ninput I { f_c: Color = V_RED f_l: [Int!] = [1, 2] f_n: I }\nschema { query: A }\n", "pydantic_v2.BaseModel", {}, {}),
+    # repaired finding C17-single-member-union (its former witness; must HOLD): a one-member union whose member
+    # is emitted AFTER the alias (Alpha implements Aged & Base, Aged implements Base: kept back by the first pass)
+    # — every executable kind, with and without the `|` spelling (`Uu | None` needs the alias to be a type
+    # expression, not a plain string), a nullable / a list / a required member over the alias
+    *[(SINGLE_LATE, kind, flags, {})
+      for kind in e2e.EXECUTABLE_KINDS
+      for flags in ({}, {"use_union_operator": True}, {"use_union_operator": True, "use_standard_collections": True})],
+    # … and the same over an early member (worked before the repair as well)
+    *[(SINGLE_EARLY, kind, flags, {}) for kind in e2e.EXECUTABLE_KINDS for flags in ({}, {"use_union_operator": True})],
 ]
 
 
